@@ -7,7 +7,7 @@ RUN_MODULE = "RunC08"
 DRIVER = "equalizer_sim.py"
 SHARD = 400
 RULE = ("one case = one comparison run of the real Equalizer over a script (sequence of recording ids, each with one of "
-        "21 behaviour texts: 9 verdict-level, 9 process-level + 3 in the F08 probe streams) in dedicated (simulated multiprocessing) or in-process "
+        "23 behaviour texts: 9 verdict-level, 9 process-level, 2 answer-level (the parent cannot load the answer / the worker answers (False, message)) + 3 in the F08 probe streams) in dedicated (simulated multiprocessing) or in-process "
         "mode, recycle rate, timeout, keep-results on/off, consumed fully / closed after n / consumer raising after n / "
         "id source raising after n; each case also plays every recording alone and the whole script in the other mode; "
         "non-trivial = at least two recordings and at least one behaviour other than 'equal'; distinct = distinct case")
@@ -16,15 +16,16 @@ ASSUMPTIONS = ["scheduling of parent and worker is the one implemented by harnes
                "the parent blocks; a late answer lands at the moment of the kill); other interleavings of real "
                "multiprocessing are not covered by the theorems",
                "os.kill(SIGKILL) succeeds",
-               "results cross the process boundary unchanged (pickling is not modelled; an unpicklable result is the "
-               "behaviour 'drops')",
+               "results cross the process boundary unchanged or not at all (pickling is not modelled: a result that "
+               "does not pickle in the worker is the behaviour 'drops', one that does not unpickle in the parent is "
+               "'unloadable')",
                "closing / dropping a suspended generator runs its finally block (Python semantics) - abandonment "
                "after n yields is modelled as the run over the first n recordings"]
 TRUSTED = ["fake multiprocessing / clock / kill (harness/impl/fake_mp.py) under the real Equalizer",
            "real-process scripts (thorough tier) are checked by the direct predicate only"]
 
-MAIN = G.VERDICT_BEH + G.PROCESS_BEH
-W_MAIN = [30, 8, 6, 6, 6, 3, 2, 1, 1] + [5, 5, 6, 3, 2, 3, 3, 2, 2]
+MAIN = G.VERDICT_BEH + G.PROCESS_BEH + G.ANSWER_BEH
+W_MAIN = [30, 8, 6, 6, 6, 3, 2, 1, 1] + [5, 5, 6, 3, 2, 3, 3, 2, 2] + [5, 3]
 
 
 def generate(rng, tier):
@@ -37,7 +38,7 @@ def generate(rng, tier):
                           consume=G.rand_consume(rng, len(ids))))
     # every behaviour at every position of a short run, all small rates
     alpha3 = ["equal", "different", "player_raises", "extractor_raises", "comparator_raises", "bare:Fixed",
-              "exit0", "exit1", "hang", "hang_deaf", "slow:2", "slow:4"]
+              "exit0", "exit1", "hang", "hang_deaf", "slow:2", "slow:4", "unloadable", "put_raises"]
     alpha4 = ["equal", "extractor_raises", "exit0", "hang", "slow:3", "player_raises"]
     if tier == "quick":
         for ids, behs in G.exhaustive(alpha3, 2):
@@ -135,8 +136,7 @@ def direct(case, obs):
         if exp is not None and c[1] != exp:
             fails.append((sig("wrong-status"), "comparison #%d of r%s (%s): status %s, expected %s" % (k, i, b, c[1], exp)))
     # in-process and dedicated-process execution give the same verdicts
-    neutral = all(G.expected_status(G.beh_of(case, i), True, T) is not None and not G.fatal_dedicated(G.beh_of(case, i), T)
-                  for i in ids)
+    neutral = all(G.mode_neutral(G.beh_of(case, i), T) for i in ids)
     if neutral and case.get("consume", ["full"])[0] == "full" and obs["other_mode"][0] != cmps:
         fails.append(("modes-disagree", "dedicated and in-process runs differ: %s vs %s" % (cmps, obs["other_mode"][0])))
     return fails
@@ -151,6 +151,8 @@ def nontrivial(case):
 
 
 def shrink_candidates(case):
+    if case.get("kind") == "real":
+        return       # real-process scripts are few, short and slow (a stuck one costs three watchdog periods per run)
     ids = case["ids"]
     for k in range(len(ids)):
         rest = ids[:k] + ids[k + 1:]
@@ -175,7 +177,7 @@ def search_harder(rng, bad_cases):
 
 MANIFEST = dict(
     design_ref='6/C08',
-    text="Coq theorems over all scripts (sequences of recording ids with a per-recording behaviour: equal, different, player / extractor / comparator raises, bare status, worker exits, hangs, answers late, slow, answer lost in transit, worker dies before taking the task), all recycle rates, timeouts and keep-results settings, about a hand-written model of run_comparison, the dispatch/wait/timeout/recycle logic and the worker loop with explicit task queue, result queue, worker table and terminate flag: one comparison per id in input order with the right label (even with late answers); without late answers, stale tasks and lost answers the whole output is the map of the single-recording verdict (failures local, EqualizerFailure for every fault kind); dedicated and in-process modes agree; the late-answer, stale-task and lost-answer (read lock held by a killed idle worker) clauses are refuted with witnesses (known finding F08, three signatures) and the full statement is proved for the candidate repair (fresh queues per worker). Model tied to /repo on every run by running the REAL Equalizer single-threaded over fake multiprocessing/clock/kill on generated scripts and comparing every yielded comparison with the model by vm_compute; direct predicate: labels/order/count, attached replay belongs to the labelled id, verdict equals that recording played alone, failures become EqualizerFailure for that recording only, both modes agree; thorough tier adds real-process scripts.",
+    text="Coq theorems over all scripts (sequences of recording ids with a per-recording behaviour: equal, different, player / extractor / comparator raises, bare status, worker exits, hangs, answers late, slow, answer lost in transit, worker dies before taking the task, answer that the parent cannot load or that the worker sent as (False, message)), all recycle rates, timeouts and keep-results settings, about a hand-written model of run_comparison, the dispatch/wait/timeout/recycle logic and the worker loop with explicit task queue, result queue, worker table and terminate flag: one comparison per id in input order with the right label (even with late answers); without late answers, stale tasks and lost answers the whole output is the map of the single-recording verdict (failures local, EqualizerFailure for every fault kind); dedicated and in-process modes agree; the late-answer, stale-task and lost-answer (read lock held by a killed idle worker) clauses are refuted with witnesses (known finding F08, three signatures) and the full statement is proved for the candidate repair (fresh queues per worker). Model tied to /repo on every run by running the REAL Equalizer single-threaded over fake multiprocessing/clock/kill on generated scripts and comparing every yielded comparison with the model by vm_compute; direct predicate: labels/order/count, attached replay belongs to the labelled id, verdict equals that recording played alone, failures become EqualizerFailure for that recording only, both modes agree; thorough tier adds real-process scripts.",
     note='Trusted: Coq kernel + vm_compute; hand-written model; the scheduling implemented by the fake multiprocessing layer (one resolution of each race; real interleavings, pickling across the pipe and a worker killed while holding a queue lock are runtime residue, sampled by the real-process scripts); os.kill succeeds. Late answers / stale tasks / lost answers are known finding F08 (probe streams, KNOWN-FINDING lines).',
     technique='Coq proof (invariant over the parent loop, induction over scripts and over the wait loop) + model/implementation correspondence by vm_compute over a deterministic multiprocessing simulator + real-process sampling',
 )
